@@ -41,18 +41,58 @@ func collectCandidates(all []*Term, focus []*Term) *preinst {
 	intSeen := map[string]bool{}
 	addInt := func(t *Term) {
 		k := t.String()
-		if !intSeen[k] && len(p.ints) < 20 {
+		if !intSeen[k] && len(p.ints) < 28 {
 			intSeen[k] = true
 			p.ints = append(p.ints, t)
 		}
 	}
-	// integer constants of the focus (goal and local hypotheses) first
-	for _, f := range focus {
-		f.Walk(func(x *Term) {
-			if x.IsSym && x.S == SInt && len(x.Args) == 0 {
-				addInt(x)
+	// integer constants of the focus (goal and local hypotheses) first, then
+	// (two levels deep) the integer constants in the definitions of the
+	// constants the focus mentions: index expressions hide there
+	defs := map[string]*Term{}
+	for _, a := range all[:len(all)-len(focus)] {
+		if !a.IsSym && a.Op == "=" && len(a.Args) == 2 && a.Args[0].IsSym && len(a.Args[0].Args) == 0 {
+			if _, ok := defs[a.Args[0].Op]; !ok {
+				defs[a.Args[0].Op] = a.Args[1]
 			}
-		})
+		}
+		// guarded definitions: (=> r (= c rhs))
+		if !a.IsSym && a.Op == "=>" && !a.Args[1].IsSym && a.Args[1].Op == "=" && a.Args[1].Args[0].IsSym && len(a.Args[1].Args[0].Args) == 0 {
+			if _, ok := defs[a.Args[1].Args[0].Op]; !ok {
+				defs[a.Args[1].Args[0].Op] = a.Args[1].Args[1]
+			}
+		}
+	}
+	frontier := focus
+	for level := 0; level < 3; level++ {
+		var next []*Term
+		for _, f := range frontier {
+			f.Walk(func(x *Term) {
+				if x.IsSym && len(x.Args) == 0 {
+					if x.S == SInt {
+						addInt(x)
+					}
+					if d, ok := defs[x.Op]; ok {
+						next = append(next, d)
+					}
+				}
+				// index expressions of array reads: (select a (+ off i)) suggests i
+				if !x.IsSym && x.Op == "select" && len(x.Args) == 2 && x.Args[1].S == SInt && isGround(x.Args[1]) {
+					idx := x.Args[1]
+					if !idx.IsSym && idx.Op == "+" && len(idx.Args) == 2 {
+						if _, isC := idx.Args[1].IntVal(); !isC {
+							addInt(idx.Args[1])
+						}
+						if _, isC := idx.Args[0].IntVal(); !isC && (idx.Args[0].IsSym && len(idx.Args[0].Args) == 0) {
+							addInt(idx.Args[0])
+						}
+					} else if _, isC := idx.IntVal(); !isC {
+						addInt(idx)
+					}
+				}
+			})
+		}
+		frontier = next
 	}
 	for _, a := range all {
 		a.Walk(func(x *Term) {
